@@ -25,6 +25,8 @@ def _compile(pattern, mode):
         src = re.sub(r"\$(\w+)", _MV + r"\1", src)
         src = re.sub(r"@(\w+)", _LIT + r"\1", src)
         tree = ast.parse(src, mode="exec")
+        from .normalize import fold_constants
+        tree = fold_constants(tree)
         if mode == "expr":
             if len(tree.body) != 1 or not isinstance(tree.body[0], ast.Expr):
                 raise ValueError(f"not an expression pattern: {pattern}")
